@@ -93,4 +93,17 @@ CLAIMED["C06"] = dict(
          "rendering equivalence by per-case check (partial); models tied to /repo by vm_compute correspondence over random zones x "
          "equivalent renderings",
     technique="machine-checked proof in Coq (refinement of a denotational fold by the parser state machine) + model/implementation correspondence by vm_compute")
+CLAIMED["C02"] = dict(
+    text="Coq theorems for EVERY octet string (no length bound): the name decoder, every generated RDATA decoder (any field "
+         "sequence), UnpackRR and Msg.Unpack never panic and never exhaust iteration budgets that are fixed multiples of the "
+         "input length; accepted names respect 63/255; accepted sections hold at most one record per input octet whatever the "
+         "counts claim; model tied to /repo by vm_compute correspondence on truncations, mutations, pointer graphs, lying counts; "
+         "real allocation and time measured by the harness (partial)",
+    technique="machine-checked proof in Coq (termination measures, checked slicing, induction over layouts) + model/implementation correspondence by vm_compute")
+CLAIMED["C04"] = dict(
+    text="Kernel-checked complete checks of the compress flags regenerated from zmsg.go (only RFC 1035 types compress RDATA names, "
+         "all of them do, unpack reads every name with the pointer-following decoder); executable model of packDomainName with "
+         "the compression map whose octets AND final map contents are compared with the implementation on every run; "
+         "transparency, never-longer and pointer validity by independent wire reader on the implementation (theorems pending: partial)",
+    technique="machine-checked table checks in Coq over translator-regenerated layouts + model/implementation correspondence by vm_compute + independent wire reader oracle")
 NOT_YET = {}
